@@ -195,3 +195,69 @@ def rng_for(seed, *salt):
 def chunks(seq, n):
     for i in range(0, len(seq), n):
         yield seq[i : i + n]
+
+
+# ---- history-sensitive evaluation ("warm" evaluators) --------------------------------------------
+def decoy_value(v, funs, k=0):
+    """another value of the same kind for the same name (driver JSON forms)"""
+    if v is None:
+        return None
+    if isinstance(v, bool):
+        return not v
+    if isinstance(v, list):
+        return [decoy_value(x, funs, k + 1) for x in reversed(v)] + ([decoy_value(v[0], funs, k + 1)] if v else [{"n": "5"}])
+    if isinstance(v, dict):
+        if "n" in v:
+            return {"n": "3" if v["n"] in ("7.25", "7.250") else "7.25"}
+        if "s" in v:
+            return {"s": v["s"] + "~"}
+        if "c" in v:
+            return {"c": [[n, decoy_value(x, funs, k + 1)] for n, x in v["c"]]}
+        if "feel" in v and funs:
+            # a function (or another expression-built value): the next one bound anywhere in this scope
+            return {"feel": funs[(funs.index(v["feel"]) + 1) % len(funs)]} if v["feel"] in funs else v
+    return v
+
+
+def decoy_scope(scope):
+    """the scope (list of contexts, each a list of [name, value]) with every name bound to ANOTHER value of its kind:
+    numbers and strings changed, booleans negated, lists reversed and longer, contexts entry by entry, functions rotated
+    among the functions bound in the scope. Used to give a prepared evaluator a first use before the judged one."""
+    funs = []
+
+    def collect(v):
+        if isinstance(v, dict):
+            if "feel" in v and v["feel"] not in funs:
+                funs.append(v["feel"])
+            for x in v.get("c", []):
+                collect(x[1])
+        elif isinstance(v, list):
+            for x in v:
+                collect(x)
+
+    for ctx in scope:
+        for _n, v in ctx:
+            collect(v)
+    return [[[n, decoy_value(v, funs)] for n, v in ctx] for ctx in scope]
+
+
+def shape_decoy_scope(scope):
+    """the scope with the same names but another SHAPE: context-valued names are bound to null, lists that hold contexts to []"""
+
+    def flat(v):
+        if isinstance(v, dict) and "c" in v:
+            return None
+        if isinstance(v, list) and any(isinstance(x, dict) and "c" in x for x in v):
+            return []
+        return v
+
+    return [[[n, flat(v)] for n, v in ctx] for ctx in scope]
+
+
+def warm(case):
+    """adds the decoy scope (and one repetition) and the shape-decoy scope for the pre-parse to an eval / evalmany case"""
+    if "scope" in case and "warm_scope" not in case:
+        case["warm_scope"] = decoy_scope(case["scope"])
+        case["preparse_scope"] = shape_decoy_scope(case["scope"])
+        case.setdefault("reps", 2)
+    return case
